@@ -50,7 +50,7 @@ func yamlUnmarshalStream(in []byte) ([]any, error) {
 	parts := yamlRE.Split(string(in), -1)
 	ret := []any{}
 
-	for _, s := range parts {
+	for i, s := range parts {
 		// A part can itself hold several documents when a boundary is not a
 		// bare "---" line ("--- # comment", trailing blanks, CRLF line ends,
 		// content on the marker line): decode all of them, not just the first.
@@ -61,8 +61,9 @@ func yamlUnmarshalStream(in []byte) ([]any, error) {
 
 			err := dec.Decode(&node)
 			if err == io.EOF {
-				if first {
-					// Empty part: an empty document
+				// A blank part is an empty document - except before the
+				// first "---", which only starts the first document.
+				if first && !(i == 0 && len(parts) > 1) {
 					ret = append(ret, nil)
 				}
 
